@@ -73,6 +73,7 @@ class Tally:
         self.violations: dict[str, dict] = {}
         self.counters: collections.Counter = collections.Counter()
         self.notes: dict[str, Any] = {}
+        self.sets: dict[str, set] = {}  # named sets, merged by union (not written to the evidence)
 
     # -- recording -------------------------------------------------------------------------
     def case(self, key: Any, nontrivial: bool = True, outcome: str | None = None, sample: Any = None) -> None:
@@ -118,6 +119,8 @@ class Tally:
                 self.violations[k] = v
         for k, v in other.notes.items():
             self.notes.setdefault(k, v)
+        for k, v in other.sets.items():
+            self.sets.setdefault(k, set()).update(v)
 
 
 # ------------------------------------------------------------------------------------------
@@ -163,6 +166,27 @@ def chunks(it: Iterable, n: int):
         yield c
 
 
+def _pool(jobs: int):
+    """A fork pool whose workers are not daemonic (cases may start their own processes / managers)."""
+    import multiprocessing.pool
+
+    base = multiprocessing.get_context("fork")
+
+    class _NoDaemonProcess(base.Process):
+        @property
+        def daemon(self):
+            return False
+
+        @daemon.setter
+        def daemon(self, value):
+            pass
+
+    class _Ctx(type(base)):
+        Process = _NoDaemonProcess
+
+    return multiprocessing.pool.Pool(jobs, context=_Ctx())
+
+
 def pmap(fn: Callable[[Any, Tally], None], cases: Iterable, tally: Tally, jobs: int = 16, chunk: int = 50, timeout: int = 0) -> None:
     """Run ``fn(case, tally)`` for every case on ``jobs`` forked workers; merge in case order."""
     global _FN, _TIMEOUT
@@ -171,10 +195,14 @@ def pmap(fn: Callable[[Any, Tally], None], cases: Iterable, tally: Tally, jobs: 
         for c in chunks(cases, chunk):
             tally.merge(_run_chunk(c))
         return
-    ctx = multiprocessing.get_context("fork")
-    with ctx.Pool(jobs) as pool:
+    pool = _pool(jobs)
+    try:
         for t in pool.imap(_run_chunk, chunks(cases, chunk)):
             tally.merge(t)
+        pool.close()  # let the workers exit normally so that their own children (managers) are finalized
+        pool.join()
+    finally:
+        pool.terminate()
 
 
 _FN2: Callable | None = None
@@ -191,9 +219,14 @@ def pmap_raw(fn: Callable, arglist: Iterable[tuple], jobs: int = 16, chunk: int 
     arglist = list(arglist)
     if jobs <= 1 or len(arglist) <= 1:
         return [fn(*a) for a in arglist]
-    ctx = multiprocessing.get_context("fork")
-    with ctx.Pool(min(jobs, len(arglist))) as pool:
-        return pool.map(_run_map, arglist, chunksize=chunk)
+    pool = _pool(min(jobs, len(arglist)))
+    try:
+        out = pool.map(_run_map, arglist, chunksize=chunk)
+        pool.close()
+        pool.join()
+        return out
+    finally:
+        pool.terminate()
 
 
 class Ctx:
